@@ -58,7 +58,7 @@ try:
         if rc != 0:
             meta["demo_without_change_tail"] = out.strip()[-300:]
         meta["confirmed"] = bool(meta["suite_passes_with_change"] and meta["demo_with_change_exit"] != 0 and rc == 0)
-    env = dict(os.environ, VERIF_REPO=scratch)
+    env = dict(os.environ, VERIF_REPO=scratch, VERIF_MINIMISE="4")
     if runs:
         env["VERIF_RUNS"] = runs
     # the check writes evidence/replays under /verif: keep the real ones untouched by working in a copy of /verif
